@@ -381,3 +381,906 @@ Qed.
 
 Lemma is_open_nil m h : m_handles m = [] -> is_open m h = false.
 Proof. unfold is_open, hstate_of. intros ->. destruct h; reflexivity. Qed.
+(* ------------------------------------------------------------------ *)
+(* every operation keeps the ownership invariant                        *)
+(* ------------------------------------------------------------------ *)
+Ltac walk :=
+  repeat first
+    [ progress cbn -[okown own_is is_queued is_temp move shift_queue Qop is_open hok add_handle set_hst
+                     all_closed run_closing]
+    | progress unfold init_fail_tail, spawn_error_temps
+    | match goal with
+      | |- _ /\ _ => split
+      | |- forall _, _ => intro
+      | |- post (if ?b then _ else _) _ _ => destruct b eqn:?
+      | |- post ((if ?b then _ else _) _) _ _ => destruct b eqn:?
+      | |- post (match ?x with _ => _ end) _ _ => destruct x eqn:?
+      end ].
+Ltac leaf0 :=
+  unfold Qop; cbn [fst snd];
+  split; [intros ow Hw; decode
+         | split; [| split; [intros; try discriminate; try reflexivity | try reflexivity]]].
+Ltac side := cbn; auto using incl_refl, incl_tl, hok_add; try congruence; try (intros; congruence).
+Ltac fin :=
+  try assumption; try reflexivity;
+  try (eapply okown_ext; [ | | | | eassumption]; side; fail);
+  try (eapply minv_ext; [ | | | | | eassumption]; side; fail);
+  try (cbn; left; congruence);
+  try (exfalso; match goal with H : _ && false = true |- _ => rewrite andb_false_r in H; discriminate H end).
+
+Lemma okown_new_handle m h t s :
+  negb (Nat.eqb h (length (m_handles m))) = false -> slot_ok t s = true ->
+  okown (add_handle m t HOpen) (OHandle h s).
+Proof.
+  intros H Hs. apply negb_false_iff, Nat.eqb_eq in H. subst h. cbn [okown].
+  rewrite hok_add_new. exact Hs.
+Qed.
+
+Lemma okown_hok m h s : negb (hok m h s) = false -> okown m (OHandle h s).
+Proof. intros H. apply negb_false_iff in H. exact H. Qed.
+
+Lemma okown_hok_any m h s s' : negb (hok m h s) = false -> slot_ok (ty_of m h) s' = true -> okown m (OHandle h s').
+Proof.
+  intros H Hs. apply negb_false_iff in H. cbn. unfold hok in *.
+  apply andb_true_iff in H. destruct H as [H _]. rewrite H, Hs. reflexivity.
+Qed.
+
+Lemma post_hinit m h t w : minv m -> post (op_hinit m h t w) (okown m) (Qop m (OHInit h t w)).
+Proof.
+  intros Hm. unfold op_hinit. walk; leaf0; fin; try (apply okown_new_handle; [assumption | reflexivity]).
+Qed.
+
+Lemma post_slurp m : minv m -> post (op_slurp m) (okown m) (Qop m OSlurp).
+Proof. intros Hm. unfold op_slurp. walk; leaf0; fin. Qed.
+
+Lemma post_ensure m h b : minv m -> post (op_ensure m h b) (okown m) (Qop m (OEnsure h b)).
+Proof. intros Hm. unfold op_ensure. walk; leaf0; fin; try (apply okown_hok; assumption). Qed.
+
+Lemma post_pipe_bind m h b : minv m -> post (op_pipe_bind m h b) (okown m) (Qop m (OPipeBind h b)).
+Proof. intros Hm. unfold op_pipe_bind. walk; leaf0; fin; try (apply okown_hok; assumption). Qed.
+
+Lemma move_cases a b o : (o = a /\ move a b o = b) \/ (own_is a o = false /\ move a b o = o).
+Proof.
+  unfold move, own_is. destruct (owner_eqb o a) eqn:E; auto.
+  apply owner_eqb_eq in E; auto.
+Qed.
+
+Ltac unmove :=
+  repeat match goal with
+  | H : move ?a ?b ?o = _ |- _ =>
+      let E := fresh in
+      destruct (move_cases a b o) as [[? E] | [? E]]; rewrite E in H; clear E
+  | |- context [move ?a ?b ?o] =>
+      let E := fresh in
+      destruct (move_cases a b o) as [[? E] | [? E]]; rewrite E; clear E
+  end.
+
+Lemma post_open m h src ok : minv m -> post (op_open m h src ok) (okown m) (Qop m (OOpen h src ok)).
+Proof.
+  intros Hm. unfold op_open. walk; leaf0; unmove; decode; fin; try (apply okown_hok; assumption).
+Qed.
+
+Lemma post_accept_shed m o l h : m_loop m = Some l -> hok m h HAcc = true -> minv m ->
+  forall fuel (W : owner -> Prop), (forall ow, W ow -> okown m ow) ->
+  post (accept_shed fuel l h m) W (Qop m o).
+Proof.
+  intros Hl Hh Hm. induction fuel as [|f IH]; intros W HW; walk;
+    try (apply IH; intros ow Hw; decode; auto; fail); leaf0; fin; auto;
+    try (apply okown_hok; rewrite Hh; reflexivity).
+Qed.
+
+Lemma post_srvio m h fuel : minv m -> post (op_srvio m h fuel) (okown m) (Qop m (OSrvIo h fuel)).
+Proof.
+  intros Hm. unfold op_srvio. walk;
+    try (apply post_accept_shed; auto; [apply negb_false_iff; assumption | intros ow Hw; decode; auto]; fail);
+    leaf0; fin; try (apply okown_hok; assumption).
+Qed.
+
+Lemma okown_shift m h o : okown m o -> okown m (shift_queue h o).
+Proof.
+  destruct o as [| | | h' s | |]; cbn; auto.
+  destruct s as [| |k]; cbn; auto.
+  destruct (Nat.eqb h h') eqn:E; cbn; auto.
+  apply Nat.eqb_eq in E; subst h'.
+  unfold hok. intros H. apply andb_true_iff in H. destruct H as [H1 H2].
+  destruct k; cbn; unfold hok; rewrite H1; destruct (ty_of m h); cbn in *; try discriminate; reflexivity.
+Qed.
+
+Lemma post_accept m s c ok : minv m -> post (op_accept m s c ok) (okown m) (Qop m (OAccept s c ok)).
+Proof.
+  intros Hm. unfold op_accept. walk; leaf0; unmove; decode; fin;
+    try (apply okown_shift; unmove; decode; fin);
+    try (apply orb_false_iff in Heqb; destruct Heqb as [Heqb _]; apply negb_false_iff, andb_true_iff in Heqb;
+         destruct Heqb as [Hs Hc]; cbn; exact Hc).
+Qed.
+
+Lemma okown_queued m h k : hok m h HAcc = true -> okown m (OHandle h (HQ k)).
+Proof.
+  cbn. unfold hok. intros H. apply andb_true_iff in H. destruct H as [H1 H2]. rewrite H1.
+  destruct (ty_of m h); cbn in *; auto.
+Qed.
+
+Lemma post_recvfds m o h : o <> OLoopClose -> hok m h HAcc = true -> minv m ->
+  forall n (W : owner -> Prop), (forall ow, W ow -> okown m ow) -> post (op_recvfds m h n) W (Qop m o).
+Proof.
+  intros Ho Hh Hm. induction n as [|n IH]; intros W HW; walk;
+    try (apply IH; intros ow Hw; decode; auto; try (apply okown_queued; assumption); fail);
+    leaf0; fin; auto; congruence.
+Qed.
+
+Lemma okown_closed m h st o :
+  okown m o -> own_is (OHandle h HIo) o = false -> own_is (OHandle h HAcc) o = false ->
+  is_queued h o = false -> okown (set_hst m h st) o.
+Proof.
+  destruct o as [| | | h' s | |]; cbn; auto.
+  intros H H1 H2 H3. destruct (Nat.eq_dec h' h) as [->|Hne].
+  - exfalso. destruct s; cbn in *.
+    + rewrite Nat.eqb_refl in H1; discriminate.
+    + rewrite Nat.eqb_refl in H2; discriminate.
+    + rewrite Nat.eqb_refl in H3; discriminate.
+  - rewrite hok_sethst_other by auto. exact H.
+Qed.
+
+Lemma okown_closed_udp m h st o :
+  ty_of m h = TUdp ->
+  okown m o -> own_is (OHandle h HIo) o = false -> okown (set_hst m h st) o.
+Proof.
+  intros Ht. destruct o as [| | | h' s | |]; cbn; auto.
+  intros H H1. destruct (Nat.eq_dec h' h) as [->|Hne].
+  - exfalso. unfold hok in H. rewrite Ht in H. apply andb_true_iff in H. destruct H as [_ H].
+    destruct s; cbn in *; try discriminate. rewrite Nat.eqb_refl in H1; discriminate.
+  - rewrite hok_sethst_other by auto. exact H.
+Qed.
+
+Lemma okown_closed_other m h st o :
+  ty_of m h = TOther -> okown m o -> okown (set_hst m h st) o.
+Proof.
+  intros Ht. destruct o as [| | | h' s | |]; cbn; auto.
+  intros H. destruct (Nat.eq_dec h' h) as [->|Hne].
+  - exfalso. unfold hok in H. rewrite Ht in H. apply andb_true_iff in H. destruct H as [_ H]. discriminate.
+  - rewrite hok_sethst_other by auto. exact H.
+Qed.
+
+Lemma minv_sethst m h st : st <> HOpen -> minv m -> minv (set_hst m h st).
+Proof.
+  intros Hst (H1 & H2 & H3). repeat split; auto.
+  cbn. intros Hl h'. apply is_open_sethst; auto.
+Qed.
+
+Lemma post_close m h : minv m -> post (op_close m h) (okown m) (Qop m (OClose h)).
+Proof.
+  intros Hm. unfold op_close. walk; leaf0; fin;
+    try (apply minv_sethst; [discriminate | assumption]);
+    try (apply okown_closed; assumption);
+    try (apply okown_closed_udp; assumption);
+    try (apply okown_closed_other; assumption);
+    try exact I.
+Qed.
+
+Lemma post_run m : minv m -> post (op_run m) (okown m) (Qop m ORun).
+Proof.
+  intros Hm. unfold op_run. fold (run_closing m). walk; leaf0; fin.
+  - eapply okown_ext; [ | | | | eassumption]; cbn; auto using incl_refl.
+    intros h s. rewrite hok_run. auto.
+  - destruct Hm as (H1 & H2 & H3). repeat split; auto.
+    cbn. intros Hl h. rewrite is_open_run. auto.
+Qed.
+
+Lemma post_fsevent m h : minv m -> post (op_fsevent_start m h) (okown m) (Qop m (OFsEventStart h)).
+Proof. intros Hm. unfold op_fsevent_start. walk; leaf0; fin. Qed.
+
+Lemma post_give1 m k g : minv m -> post (op_give1 m k g) (okown m) (Qop m (OGive1 k g)).
+Proof. intros Hm. unfold op_give1. walk; leaf0; fin; exact I. Qed.
+
+Lemma post_give2 m k g1 g2 : minv m -> post (op_give2 m k g1 g2) (okown m) (Qop m (OGive2 k g1 g2)).
+Proof. intros Hm. unfold op_give2. walk; leaf0; fin; exact I. Qed.
+
+Lemma post_user_close m g : minv m -> post (op_user_close m g) (okown m) (Qop m (OUserClose g)).
+Proof. intros Hm. unfold op_user_close. walk; leaf0; fin. Qed.
+
+Lemma post_user_close_fd m fd : minv m -> post (op_user_close_fd m fd) (okown m) (Qop m (OUserCloseFd fd)).
+Proof. intros Hm. unfold op_user_close_fd. walk; leaf0; fin. Qed.
+
+Lemma post_user_add m fd cx : minv m -> post (op_user_add m fd cx) (okown m) (Qop m (OUserAdd fd cx)).
+Proof. intros Hm. unfold op_user_add. walk; leaf0; fin; exact I. Qed.
+
+Lemma post_iou_lazy m u : minv m -> post (op_iou_lazy m u) (okown m) (Qop m (OIouLazy u)).
+Proof. intros Hm. unfold op_iou_lazy. walk; leaf0; fin. Qed.
+
+Lemma okown_loop_closed m l o :
+  okown m o -> m_loop m = Some l -> all_closed (m_handles m) = true ->
+  (forall s, own_is (OLoop l s) o = false) -> okown (set_loop m None) o.
+Proof.
+  intros H Hl Hc Hs. destruct o as [| | l' s' | h s | |]; cbn in *; auto.
+  - destruct H as [H | H]; auto. exfalso.
+    assert (l' = l) by congruence. subst l'.
+    specialize (Hs s'). rewrite Nat.eqb_refl in Hs. cbn in Hs.
+    destruct s'; discriminate.
+Qed.
+
+Lemma post_loop_close m : minv m -> post (op_loop_close m) (okown m) (Qop m OLoopClose).
+Proof.
+  intros Hm. unfold op_loop_close. walk; leaf0; fin.
+  - apply negb_false_iff in Heqb. eapply okown_loop_closed; eauto.
+    intros s; destruct s; assumption.
+  - apply negb_false_iff in Heqb. destruct Hm as (H1 & H2 & H3). repeat split; auto.
+    intros _ h. exact (all_closed_not_open m Heqb h).
+Qed.
+
+(* while no loop is live nothing is owned by a handle, so libuv's state may change freely *)
+Lemma okown_init m m' o :
+  minv m -> m_loop m = None ->
+  (m_ginit m = true -> m_ginit m' = true) -> incl (m_leaked m) (m_leaked m') ->
+  okown m o -> okown m' o.
+Proof.
+  intros (H1 & H2 & H3) Hl Hg Hk. destruct o as [| | l' s' | h s | |]; cbn; auto.
+  - rewrite Hl. intros [H | [Ha Hb]]; [discriminate | right; auto].
+  - unfold hok. rewrite (H3 Hl h). discriminate.
+Qed.
+Ltac solve_minv Hm :=
+  let H1 := fresh in let H2 := fresh in let H3 := fresh in
+  destruct Hm as (H1 & H2 & H3); repeat split; cbn; intros; try congruence; auto;
+  try (apply is_open_nil; reflexivity).
+
+Lemma post_loop_init m nofd u : minv m -> post (op_loop_init m nofd u) (okown m) (Qop m (OLoopInit nofd u)).
+Proof.
+  intros Hm. unfold op_loop_init. walk; leaf0; fin;
+    try (eapply okown_init; [eassumption | assumption | | | eassumption]; cbn; auto using incl_refl, incl_tl; fail);
+    try (cbn; right; split; [reflexivity | left; reflexivity]);
+    try (solve_minv Hm; fail);
+    try (match goal with H : is_lib _ = false |- _ => cbn in H; discriminate H end).
+Qed.
+
+(* ---- uv_spawn ---- *)
+Definition tempset (i : nat) (sd : list sdesc) (o : owner) : Prop :=
+  exists j sh, nth_error sd j = Some (SdPipe sh) /\ (o = OTemp (2 * (i + j)) \/ o = OTemp (2 * (i + j) + 1)).
+
+Lemma tempset_nil i o : ~ tempset i [] o.
+Proof. intros (j & sh & H & _). destruct j; discriminate. Qed.
+
+Lemma tempset_is_temp i sd o : tempset i sd o -> is_temp o = true.
+Proof. intros (j & sh & _ & [-> | ->]); reflexivity. Qed.
+
+Lemma tempset_skip i x r o : (forall sh, x <> SdPipe sh) -> tempset i (x :: r) o -> tempset (S i) r o.
+Proof.
+  intros Hx (j & sh & Hn & Ho). destruct j as [|j]; cbn in Hn.
+  - inversion Hn. subst x. destruct (Hx sh eq_refl).
+  - exists j, sh. split; auto. replace (S i + j) with (i + S j) by lia. exact Ho.
+Qed.
+
+Lemma tempset_tail i x r o : tempset (S i) r o -> tempset i (x :: r) o.
+Proof.
+  intros (j & sh & Hn & Ho). exists (S j), sh. split; auto.
+  replace (i + S j) with (S i + j) by lia. exact Ho.
+Qed.
+
+Lemma tempset_head i sh r o :
+  tempset i (SdPipe sh :: r) o -> o = OTemp (2 * i) \/ o = OTemp (2 * i + 1) \/ tempset (S i) r o.
+Proof.
+  intros (j & sh' & Hn & Ho). destruct j as [|j]; cbn in Hn.
+  - rewrite Nat.add_0_r in Ho. destruct Ho; auto.
+  - right; right. exists j, sh'. split; auto. replace (S i + j) with (i + S j) by lia. exact Ho.
+Qed.
+
+Section Spawn.
+Variables (m : mstate) (o : op).
+Hypothesis Hm : minv m.
+Hypothesis Ho : o <> OLoopClose.
+
+Lemma post_spawn_unwind : forall done (W : owner -> Prop) c,
+  (forall ow, W ow -> okown m ow \/ is_temp ow = true) ->
+  (forall W' : owner -> Prop, (forall ow, W' ow -> okown m ow \/ is_temp ow = true) -> post c W' (Qop m o)) ->
+  post (spawn_unwind m done c) W (Qop m o).
+Proof.
+  induction done as [|sh r IH]; intros W c HW Hc; cbn -[okown own_is is_queued Qop].
+  - apply Hc; auto.
+  - intros x. apply IH.
+    + intros ow Hw. decode; auto. left; exact I.
+    + intros W' HW'. destruct x; cbn; apply Hc; auto.
+Qed.
+
+Lemma post_spawn_open rc : forall sd i done (W : owner -> Prop),
+  (forall ow, W ow -> okown m ow \/ tempset i sd ow) ->
+  post (spawn_open m i sd done rc) W (Qop m o).
+Proof.
+  induction sd as [|x r IH]; intros i done W HW.
+  - cbn -[okown Qop]. leaf0; fin; try congruence.
+    destruct (HW _ Hw) as [H | H]; auto. destruct (tempset_nil _ _ H).
+  - destruct x as [|sh|].
+    + cbn -[okown Qop]. apply IH. intros ow Hw. destruct (HW _ Hw); auto.
+      right. eapply tempset_skip; eauto. discriminate.
+    + cbn -[okown own_is Qop move hok Nat.mul]. split.
+      * (* the stream handle is busy *)
+        apply post_spawn_unwind.
+        -- intros ow Hw. decode. destruct (HW _ H); auto. right. eapply tempset_is_temp; eauto.
+        -- intros W' HW'. cbn -[okown Qop]. leaf0; fin; try congruence.
+           destruct (HW' _ H); auto. congruence.
+      * destruct (negb (hok m sh HAcc)) eqn:Eh; cbn -[okown own_is Qop move hok Nat.mul].
+        -- apply post_spawn_unwind.
+           ++ intros ow Hw. decode. destruct (HW _ H); auto. right. eapply tempset_is_temp; eauto.
+           ++ intros W' HW'. cbn -[okown Qop]. leaf0; fin; try congruence.
+              destruct (HW' _ H); auto. congruence.
+        -- apply IH. intros ow Hw. decode.
+           assert (Hsh : okown m (OHandle sh HIo)).
+           { apply negb_false_iff in Eh. cbn. unfold hok in *. apply andb_true_iff in Eh.
+             destruct Eh as [E1 E2]. rewrite E1. destruct (ty_of m sh); cbn in *; auto. }
+           destruct (HW _ H) as [Hk | Hk].
+           ++ destruct (move_cases (OTemp (2 * i)) (OHandle sh HIo) x) as [[E1 E2] | [E1 E2]];
+                rewrite E2; auto.
+           ++ destruct (move_cases (OTemp (2 * i)) (OHandle sh HIo) x) as [[E1 E2] | [E1 E2]];
+                rewrite E2; auto.
+              apply tempset_head in Hk. destruct Hk as [Hk | [Hk | Hk]]; auto.
+              ** subst x. rewrite own_is_refl in E1. discriminate.
+              ** subst x. rewrite own_is_refl in H2. discriminate.
+    + cbn -[okown Qop]. apply IH. intros ow Hw. destruct (HW _ Hw); auto.
+      right. eapply tempset_skip; eauto. discriminate.
+Qed.
+
+Lemma post_spawn_pairs (Q : mstate * nat -> (owner -> Prop) -> Prop) : forall sd i (T W : owner -> Prop) k,
+  (forall ow, W ow -> okown m ow \/ T ow) ->
+  (forall ow, T ow -> is_temp ow = true) ->
+  (forall W' : owner -> Prop, (forall ow, W' ow -> okown m ow \/ T ow \/ tempset i sd ow) -> post (k true) W' Q) ->
+  (forall W' : owner -> Prop, (forall ow, W' ow -> okown m ow \/ is_temp ow = true) -> post (k false) W' Q) ->
+  post (spawn_pairs i sd k) W Q.
+Proof.
+  induction sd as [|x r IH]; intros i T W k HW HT Hk1 Hk0.
+  - cbn. apply Hk1. intros ow Hw. destruct (HW _ Hw); auto.
+  - destruct x as [|sh|].
+    + cbn. apply (IH (S i) T); auto. intros W' HW'. apply Hk1. intros ow Hw.
+      destruct (HW' _ Hw) as [H | [H | H]]; auto. right; right. apply tempset_tail; auto.
+    + cbn -[Nat.mul]. repeat split.
+      * apply (IH (S i) (fun ow => T ow \/ ow = OTemp (2 * i) \/ ow = OTemp (2 * i + 1))).
+        -- intros ow Hw. decode; auto. destruct (HW _ H); auto.
+        -- intros ow [H | [-> | ->]]; auto.
+        -- intros W' HW'. apply Hk1. intros ow Hw.
+           destruct (HW' _ Hw) as [H | [[H | [H | H]] | H]]; auto.
+           ++ right; right. exists 0, sh. split; auto. rewrite Nat.add_0_r. auto.
+           ++ right; right. exists 0, sh. split; auto. rewrite Nat.add_0_r. auto.
+           ++ right; right. apply tempset_tail; auto.
+        -- exact Hk0.
+      * apply Hk0. intros ow Hw. destruct (HW _ Hw); auto.
+      * apply Hk0. intros ow Hw. destruct (HW _ Hw); auto.
+    + cbn. apply (IH (S i) T); auto. intros W' HW'. apply Hk1. intros ow Hw.
+      destruct (HW' _ Hw) as [H | [H | H]]; auto. right; right. apply tempset_tail; auto.
+Qed.
+End Spawn.
+
+Lemma Qop_transfer m m' o a (T T' : owner -> Prop) :
+  m_fixed m' = m_fixed m -> (forall ow, T' ow -> T ow) -> Qop m' o a T -> Qop m o a T'.
+Proof.
+  intros Hf HT (H1 & H2 & H3 & H4). unfold Qop. split; [auto | split; [exact H2 | split; [exact H3 | congruence]]].
+Qed.
+
+Lemma post_spawn m h sd ok : minv m -> post (op_spawn m h sd ok) (okown m) (Qop m (OSpawn h sd ok)).
+Proof.
+  intros Hm. unfold op_spawn.
+  destruct (m_loop m) as [l|] eqn:El; [|cbn -[okown Qop]; leaf0; fin].
+  destruct (negb (Nat.eqb h (length (m_handles m)))) eqn:Eh; [cbn -[okown Qop]; leaf0; fin|].
+  set (m' := add_handle m TOther HOpen).
+  assert (Hm' : minv m').
+  { eapply minv_ext; [ | | | | | exact Hm]; subst m'; side. }
+  assert (Hext : forall ow, okown m ow -> okown m' ow).
+  { intros ow H. eapply okown_ext; [ | | | | exact H]; subst m'; side. }
+  assert (Hne : OSpawn h sd ok <> OLoopClose) by discriminate.
+  eapply post_mono with (W := okown m) (Q := Qop m' (OSpawn h sd ok)); [auto | |].
+  { intros a T T' HT HQ. eapply Qop_transfer; eauto. }
+  apply (post_spawn_pairs m' (Qop m' (OSpawn h sd ok)) sd 0 (fun _ => False)).
+  - intros ow H; auto.
+  - intros ow [].
+  - intros W' HW'. cbn -[okown own_is Qop]. repeat split.
+    + apply post_spawn_open; auto. intros ow Hw. decode.
+      destruct (HW' _ H) as [Hk | [[] | Hk]]; auto.
+    + apply post_spawn_open; auto. intros ow Hw. destruct (HW' _ Hw) as [Hk | [[] | Hk]]; auto.
+    + apply post_spawn_open; auto. intros ow Hw. destruct (HW' _ Hw) as [Hk | [[] | Hk]]; auto.
+  - intros W' HW'. cbn -[okown Qop]. leaf0; fin; try congruence.
+    destruct (HW' _ H); auto. congruence.
+Qed.
+
+Theorem op_post m o : minv m -> post (op_prog m o) (okown m) (Qop m o).
+Proof.
+  intros Hm. unfold op_prog. destruct (m_abort m) eqn:Ea.
+  - cbn -[okown Qop]. leaf0; fin.
+  - destruct o.
+    + apply post_loop_init; auto.
+    + apply post_loop_close; auto.
+    + cbn -[okown Qop]. leaf0; fin.
+    + apply post_iou_lazy; auto.
+    + apply post_hinit; auto.
+    + apply post_ensure; auto.
+    + apply post_pipe_bind; auto.
+    + apply post_open; auto.
+    + apply post_srvio; auto.
+    + apply post_accept; auto.
+    + destruct (hok m h HAcc) eqn:Eh.
+      * apply post_recvfds; auto. discriminate.
+      * cbn -[okown Qop]. leaf0; fin.
+    + apply post_close; auto.
+    + apply post_run; auto.
+    + apply post_fsevent; auto.
+    + apply post_give1; auto.
+    + apply post_give2; auto.
+    + apply post_user_close; auto.
+    + apply post_user_close_fd; auto.
+    + apply post_user_add; auto.
+    + apply post_slurp; auto.
+    + apply post_spawn; auto.
+Qed.
+
+(* ------------------------------------------------------------------ *)
+(* the invariant along every program                                    *)
+(* ------------------------------------------------------------------ *)
+Definition led_ok (m : mstate) (L : ledger) : Prop := forall o, present L o -> okown m o.
+Definition Inv (st : mstate * ist) : Prop := minv (fst st) /\ led_ok (fst st) (i_led (snd st)).
+
+Lemma step_spec st o :
+  Inv st ->
+  Inv (step st o) /\ m_fixed (fst (step st o)) = m_fixed (fst st) /\
+  exists rc, i_tr (snd (step st o)) = ERet rc :: i_tr (snd (run_prog (op_prog (fst st) o) (snd st))) /\
+             (o = OLoopClose -> rc = RC_OK -> m_loop (fst (step st o)) = None).
+Proof.
+  intros [Hm Hl]. unfold step.
+  destruct (post_sound (op_prog (fst st) o) _ _ (snd st) (op_post (fst st) o Hm) Hl) as (W' & HW & HQ).
+  destruct (run_prog (op_prog (fst st) o) (snd st)) as [r s] eqn:E. cbn [fst snd] in *.
+  destruct HQ as (H1 & H2 & H3 & H4).
+  split; [split; [exact H2 | intros ow Hp; apply H1, HW, Hp] | split; [exact H4 |]].
+  exists (snd r). split; [reflexivity | exact H3].
+Qed.
+
+Lemma run_ops_inv : forall ops st, Inv st ->
+  Inv (run_ops ops st) /\ m_fixed (fst (run_ops ops st)) = m_fixed (fst st).
+Proof.
+  induction ops as [|o r IH]; intros st HI; cbn.
+  - auto.
+  - destruct (step_spec st o HI) as (H1 & H2 & _).
+    destruct (IH _ H1) as (H3 & H4). unfold run_ops in *. split; auto. congruence.
+Qed.
+
+Lemma init_inv fixed fds orc : Inv (minit fixed, mkI (user_ledger fds) orc []).
+Proof.
+  split; cbn.
+  - repeat split; cbn; auto. intros _ h. apply is_open_nil. reflexivity.
+  - intros o (fd & e & Hin & Ho). unfold user_ledger in Hin. apply in_map_iff in Hin.
+    destruct Hin as (x & Hx & _). inversion Hx; subst. cbn. exact I.
+Qed.
+
+(* After the program's last call, uv_loop_close(), returned 0: every descriptor in the table
+   that libuv is responsible for is the process-wide signal lock pipe, or the backend
+   descriptor of a loop instance whose uv_loop_init failed late (current code only). *)
+Theorem ledger_balanced_gen fixed fds ops orc :
+  let st := run fixed fds (ops ++ [OLoopClose]) orc in
+  hd (ERet RC_ERR) (i_tr (snd st)) = ERet RC_OK ->
+  m_fixed (fst st) = fixed /\ minv (fst st) /\
+  forall fd e, In (fd, e) (i_led (snd st)) -> is_lib (e_owner e) = true ->
+    (exists w, e_owner e = OProc w) \/
+    (exists l, e_owner e = OLoop l SBackend /\ In l (m_leaked (fst st))).
+Proof.
+  cbn zeta. unfold run, run_ops. rewrite fold_left_app. cbn [fold_left].
+  fold (run_ops ops (minit fixed, mkI (user_ledger fds) orc [])).
+  destruct (run_ops_inv ops _ (init_inv fixed fds orc)) as (HI & Hf).
+  set (st0 := run_ops ops (minit fixed, mkI (user_ledger fds) orc [])) in *.
+  destruct (step_spec st0 OLoopClose HI) as ((Hm & Hl) & Hf' & rc & Htr & Hrc).
+  intros Hhd. rewrite Htr in Hhd. cbn in Hhd. inversion Hhd as [Hrc0].
+  specialize (Hrc eq_refl Hrc0).
+  split; [cbn in Hf; congruence | split; [exact Hm |]].
+  intros fd e Hin Hlib.
+  assert (Hok : okown (fst (step st0 OLoopClose)) (e_owner e)) by (apply Hl; exists fd, e; auto).
+  destruct (e_owner e) as [| g | l s | h s | w | k]; cbn in Hlib; try discriminate.
+  - cbn in Hok. rewrite Hrc in Hok. destruct Hok as [Hok | [-> Hok]]; [discriminate|].
+    right. exists l. auto.
+  - cbn in Hok. destruct Hm as (_ & _ & H3). unfold hok in Hok. rewrite (H3 Hrc h) in Hok. discriminate.
+  - left. exists w; reflexivity.
+  - destruct Hok.
+Qed.
+
+(* ------------------------------------------------------------------ *)
+(* close-on-exec by construction                                        *)
+(* ------------------------------------------------------------------ *)
+Fixpoint all_cx {A} (p : prog A) : Prop :=
+  match p with
+  | Ret _ => True
+  | Create k os cx c => cx = true /\ forall a, all_cx (c a)
+  | CloseIf _ _ c | Relabel _ c | RawClose _ c | UserClose _ c | UserAdd _ _ c => all_cx c
+  | Adopt _ _ c => forall b, all_cx (c b)
+  | Has _ c => forall b, all_cx (c b)
+  | Count _ c => forall n, all_cx (c n)
+  | FdOf _ c => forall x, all_cx (c x)
+  end.
+
+Definition trace_cx (tr : list event) : Prop :=
+  forall k cx fs os, In (ECreate k cx fs os) tr -> cx = true.
+(* every descriptor libuv created carries FD_CLOEXEC *)
+Definition lib_cx (L : ledger) : Prop :=
+  forall fd e, In (fd, e) L -> e_lib e = true -> e_cx e = true.
+
+Lemma alloc_lib_cx : forall os L L' fds, lib_cx L -> alloc L os true = (L', fds) -> lib_cx L'.
+Proof.
+  induction os as [|o r IH]; intros L L' fds HL H; cbn in H.
+  - inversion H; subst; auto.
+  - destruct (alloc ((lowest_free L, mkE o true true) :: L) r true) as [L2 f2] eqn:E.
+    inversion H; subst. eapply IH; [| exact E].
+    intros fd e [Hin | Hin] Hlib; [inversion Hin; reflexivity | eauto].
+Qed.
+
+Lemma close_if_sub : forall p g L L' ev fd e,
+  close_if p g L = (L', ev) -> In (fd, e) L' -> exists e0, In (fd, e0) L /\ e_cx e0 = e_cx e /\ e_lib e0 = e_lib e.
+Proof.
+  induction L as [|[n e1] r IH]; intros L' ev fd e H Hin; cbn in H.
+  - inversion H; subst. destruct Hin.
+  - destruct (close_if p g r) as [r' ev'] eqn:E.
+    destruct (p (e_owner e1)).
+    + destruct (g && Nat.leb n 2).
+      * inversion H; subst. destruct Hin as [Hin | Hin].
+        -- inversion Hin; subst. exists e1. cbn. repeat split; auto.
+        -- destruct (IH _ _ _ _ eq_refl Hin) as (e0 & H1 & H2). exists e0. split; [right|]; auto.
+      * inversion H; subst.
+        destruct (IH _ _ _ _ eq_refl Hin) as (e0 & H1 & H2). exists e0. split; [right|]; auto.
+    + inversion H; subst. destruct Hin as [Hin | Hin].
+      * inversion Hin; subst. exists e. cbn. repeat split; auto.
+      * destruct (IH _ _ _ _ eq_refl Hin) as (e0 & H1 & H2). exists e0. split; [right|]; auto.
+Qed.
+
+Lemma adopt_sub : forall fd o L L' x n e,
+  adopt fd o L = (L', x) -> In (n, e) L' -> exists e0, In (n, e0) L /\ e_cx e0 = e_cx e /\ e_lib e0 = e_lib e.
+Proof.
+  induction L as [|[n1 e1] r IH]; intros L' x n e H Hin; cbn in H.
+  - inversion H; subst. destruct Hin.
+  - destruct (Nat.eqb n1 fd && is_user (e_owner e1)).
+    + inversion H; subst. destruct Hin as [Hin | Hin].
+      * inversion Hin; subst. exists e1. cbn. repeat split; auto.
+      * exists e. cbn. repeat split; auto.
+    + destruct (adopt fd o r) as [r' x'] eqn:E. inversion H; subst. destruct Hin as [Hin | Hin].
+      * inversion Hin; subst. exists e. cbn. repeat split; auto.
+      * destruct (IH _ _ _ _ eq_refl Hin) as (e0 & H1 & H2). exists e0. split; [right|]; auto.
+Qed.
+
+Lemma lib_cx_sub (L L' : ledger) :
+  (forall fd e, In (fd, e) L' -> exists e0, In (fd, e0) L /\ e_cx e0 = e_cx e /\ e_lib e0 = e_lib e) ->
+  lib_cx L -> lib_cx L'.
+Proof.
+  intros H HL fd e Hin Hlib. destruct (H _ _ Hin) as (e0 & H1 & H2 & H3).
+  rewrite <- H2. eapply HL; eauto; congruence.
+Qed.
+
+Lemma all_cx_sound {A} (p : prog A) : forall s,
+  all_cx p -> trace_cx (i_tr s) -> lib_cx (i_led s) ->
+  trace_cx (i_tr (snd (run_prog p s))) /\ lib_cx (i_led (snd (run_prog p s))).
+Proof.
+  induction p as [a | k os cx c IH | p g c IH | f c IH | fd o' c IH | p c IH | p c IH | ow c IH
+                 | fd c IH | sel c IH | fd cx c IH]; intros s Hp Ht Hl; cbn in Hp |- *.
+  - auto.
+  - destruct Hp as [-> Hc]. destruct (next_ans (i_orc s)) as [a orc]. destruct a.
+    + destruct (alloc (i_led s) os true) as [L fds] eqn:E. apply IH; cbn; auto.
+      * intros k' cx' fs' os' [H | H]; [inversion H; auto | eauto].
+      * eapply alloc_lib_cx; eauto.
+    + apply IH; cbn; auto. intros k' cx' fs' os' [H | H]; [discriminate | eauto].
+    + apply IH; cbn; auto. intros k' cx' fs' os' [H | H]; [discriminate | eauto].
+  - destruct (close_if p g (i_led s)) as [L ev] eqn:E. apply IH; cbn; auto.
+    + intros k' cx' fs' os' H. apply in_app_or in H. destruct H as [H | H]; [| eauto].
+      exfalso. apply in_rev in H. clear -E H. revert L ev E H.
+      induction (i_led s) as [|[n e1] r IHr]; intros L ev E H; cbn in E.
+      * inversion E; subst. destruct H.
+      * destruct (close_if p g r) as [r' ev'] eqn:E'. destruct (p (e_owner e1)).
+        -- destruct (g && Nat.leb n 2); inversion E; subst; (destruct H as [H | H]; [discriminate | eauto]).
+        -- inversion E; subst. eauto.
+    + eapply lib_cx_sub; [| exact Hl]. intros; eapply close_if_sub; eauto.
+  - apply IH; cbn; auto. eapply lib_cx_sub; [| exact Hl]. unfold relabel. intros n e Hin.
+    apply in_map_iff in Hin. destruct Hin as ([n0 e0] & Heq & Hin). cbn in Heq. inversion Heq; subst.
+    exists e0. cbn. auto.
+  - destruct (adopt fd o' (i_led s)) as [L x] eqn:E. destruct x as [from|].
+    + apply IH; cbn; auto.
+      * intros k' cx' fs' os' [H | H]; [discriminate | eauto].
+      * eapply lib_cx_sub; [| exact Hl]. intros; eapply adopt_sub; eauto.
+    + apply IH; auto.
+  - apply IH; auto.
+  - apply IH; auto.
+  - apply IH; auto.
+  - apply IH; cbn; auto.
+    + intros k' cx' fs' os' [H | H]; [discriminate | eauto].
+    + intros n e Hin. apply (Hl n e). eapply remove_fd_incl; eauto.
+  - destruct (user_close sel (i_led s)) as [L ev] eqn:E. apply IH; cbn; auto.
+    + intros k' cx' fs' os' H. apply in_app_or in H. destruct H as [H | H]; [| eauto].
+      exfalso. apply in_rev in H. clear -E H. revert L ev E H.
+      induction (i_led s) as [|[n e1] r IHr]; intros L ev E H; cbn in E.
+      * inversion E; subst. destruct H.
+      * destruct (user_close sel r) as [r' ev'] eqn:E'.
+        destruct (sel n (e_owner e1) && is_user (e_owner e1)); inversion E; subst.
+        -- destruct H as [H | H]; [discriminate | eauto].
+        -- eauto.
+    + intros n e Hin. apply (Hl n e). eapply user_close_incl; eauto.
+  - apply IH; cbn; auto. destruct (memb fd (dom (i_led s))); auto.
+    intros n e [Hin | Hin] Hlib; [inversion Hin; subst; discriminate | eauto].
+Qed.
+
+Ltac walkcx :=
+  repeat first
+    [ progress cbn -[own_is is_queued is_temp move shift_queue hok is_open add_handle set_hst all_closed Nat.mul]
+    | progress unfold init_fail_tail, spawn_error_temps
+    | match goal with
+      | |- _ /\ _ => split
+      | |- forall _, _ => intro
+      | |- True => exact I
+      | |- _ = _ => reflexivity
+      | |- all_cx (if ?b then _ else _) => destruct b
+      | |- all_cx ((if ?b then _ else _) _) => destruct b
+      | |- all_cx (match ?x with _ => _ end) => destruct x
+      end ].
+
+Lemma cx_accept_shed m l h : forall fuel, all_cx (accept_shed fuel l h m).
+Proof. induction fuel; walkcx; auto. Qed.
+Lemma cx_recvfds m h : forall n, all_cx (op_recvfds m h n).
+Proof. induction n; walkcx; auto. Qed.
+Lemma cx_spawn_unwind m : forall done c, all_cx c -> all_cx (spawn_unwind m done c).
+Proof. induction done as [|sh r IH]; intros c Hc; walkcx; auto. apply IH. destruct x; cbn; auto. Qed.
+Lemma cx_spawn_open m rc : forall sd i done, all_cx (spawn_open m i sd done rc).
+Proof.
+  induction sd as [|x r IH]; intros i done; [exact I|].
+  destruct x; walkcx; auto; apply cx_spawn_unwind; exact I.
+Qed.
+Lemma cx_spawn_pairs : forall sd i k, (forall b, all_cx (k b)) -> all_cx (spawn_pairs i sd k).
+Proof. induction sd as [|x r IH]; intros i k Hk; [apply Hk|]. destruct x; walkcx; auto. Qed.
+
+Theorem op_all_cx m o : all_cx (op_prog m o).
+Proof.
+  unfold op_prog. destruct (m_abort m); [exact I|].
+  destruct o; try (unfold op_loop_init, op_loop_close, op_iou_lazy, op_hinit, op_ensure, op_pipe_bind, op_open,
+    op_accept, op_close, op_run, op_fsevent_start, op_give1, op_give2, op_user_close, op_user_close_fd,
+    op_user_add, op_slurp; walkcx; fail).
+  - unfold op_srvio. walkcx. apply cx_accept_shed.
+  - destruct (hok m h HAcc); [apply cx_recvfds | exact I].
+  - unfold op_spawn. walkcx. apply cx_spawn_pairs. intros b. walkcx; apply cx_spawn_open.
+Qed.
+
+Theorem cloexec_by_construction fixed fds ops orc :
+  let st := run fixed fds ops orc in
+  trace_cx (i_tr (snd st)) /\ lib_cx (i_led (snd st)).
+Proof.
+  cbn zeta. unfold run.
+  assert (H0 : trace_cx (i_tr (snd (minit fixed, mkI (user_ledger fds) orc []))) /\
+               lib_cx (i_led (snd (minit fixed, mkI (user_ledger fds) orc [])))).
+  { split; cbn. - intros k cx fs os []. 
+    - intros fd e Hin. unfold user_ledger in Hin. apply in_map_iff in Hin.
+      destruct Hin as (x & Hx & _). inversion Hx; subst. cbn. discriminate. }
+  revert H0. generalize (minit fixed, mkI (user_ledger fds) orc []).
+  induction ops as [|o r IH]; intros st H0; cbn; auto.
+  apply IH. unfold step.
+  destruct (all_cx_sound (op_prog (fst st) o) (snd st) (op_all_cx _ _) (proj1 H0) (proj2 H0)) as [H1 H2].
+  destruct (run_prog (op_prog (fst st) o) (snd st)) as [r0 s0]. cbn in *. split; auto.
+  intros k cx fs os [H | H]; [discriminate | eauto].
+Qed.
+
+(* ------------------------------------------------------------------ *)
+(* libuv closes only what it owns                                       *)
+(* ------------------------------------------------------------------ *)
+Fixpoint closes_lib {A} (p : prog A) : Prop :=
+  match p with
+  | Ret _ => True
+  | Create _ _ _ c => forall a, closes_lib (c a)
+  | CloseIf q _ c => (forall o, q o = true -> is_lib o = true) /\ closes_lib c
+  | Relabel _ c | RawClose _ c | UserClose _ c | UserAdd _ _ c => closes_lib c
+  | Adopt _ _ c => forall b, closes_lib (c b)
+  | Has _ c => forall b, closes_lib (c b)
+  | Count _ c => forall n, closes_lib (c n)
+  | FdOf _ c => forall x, closes_lib (c x)
+  end.
+
+(* every close through a field (EClose) hits an entry libuv owns; so does every field reset
+   that keeps a stdio descriptor open (EKeep) *)
+Definition trace_closes_lib (tr : list event) : Prop :=
+  forall fd o, In (EClose fd o) tr \/ In (EKeep fd o) tr -> is_lib o = true.
+
+Lemma close_if_events : forall p g L L' ev fd o,
+  close_if p g L = (L', ev) -> In (EClose fd o) ev \/ In (EKeep fd o) ev -> p o = true.
+Proof.
+  induction L as [|[n e1] r IH]; intros L' ev fd o H Hin; cbn in H.
+  - inversion H; subst. destruct Hin as [[] | []].
+  - destruct (close_if p g r) as [r' ev'] eqn:E. destruct (p (e_owner e1)) eqn:Ep.
+    + destruct (g && Nat.leb n 2).
+      * inversion H; subst. destruct Hin as [[Hin | Hin] | [Hin | Hin]]; try discriminate; eauto.
+        inversion Hin; subst; auto.
+      * inversion H; subst. destruct Hin as [[Hin | Hin] | [Hin | Hin]]; try discriminate; eauto.
+        inversion Hin; subst; auto.
+    + inversion H; subst. eauto.
+Qed.
+
+Lemma user_close_events : forall sel L L' ev fd o,
+  user_close sel L = (L', ev) -> ~ (In (EClose fd o) ev \/ In (EKeep fd o) ev).
+Proof.
+  induction L as [|[n e1] r IH]; intros L' ev fd o H Hin; cbn in H.
+  - inversion H; subst. destruct Hin as [[] | []].
+  - destruct (user_close sel r) as [r' ev'] eqn:E.
+    destruct (sel n (e_owner e1) && is_user (e_owner e1)); inversion H; subst.
+    + destruct Hin as [[Hin | Hin] | [Hin | Hin]]; try discriminate; eapply IH; eauto.
+    + eapply IH; eauto.
+Qed.
+
+Lemma closes_lib_sound {A} (p : prog A) : forall s,
+  closes_lib p -> trace_closes_lib (i_tr s) -> trace_closes_lib (i_tr (snd (run_prog p s))).
+Proof.
+  induction p as [a | k os cx c IH | p g c IH | f c IH | fd o' c IH | p c IH | p c IH | ow c IH
+                 | fd c IH | sel c IH | fd cx c IH]; intros s Hp Ht; cbn in Hp |- *.
+  - auto.
+  - destruct (next_ans (i_orc s)) as [a orc]. destruct a.
+    + destruct (alloc (i_led s) os cx) as [L fds]. apply IH; cbn; auto.
+      intros n o [[H | H] | [H | H]]; try discriminate; eauto.
+    + apply IH; cbn; auto. intros n o [[H | H] | [H | H]]; try discriminate; eauto.
+    + apply IH; cbn; auto. intros n o [[H | H] | [H | H]]; try discriminate; eauto.
+  - destruct Hp as [Hq Hc]. destruct (close_if p g (i_led s)) as [L ev] eqn:E. apply IH; cbn; auto.
+    intros n o H.
+    assert (H' : (In (EClose n o) ev \/ In (EKeep n o) ev) \/ (In (EClose n o) (i_tr s) \/ In (EKeep n o) (i_tr s))).
+    { destruct H as [H | H]; apply in_app_or in H; destruct H as [H | H]; auto;
+        apply in_rev in H; auto. }
+    destruct H' as [H' | H']; [| eauto]. apply Hq. eapply close_if_events; eauto.
+  - apply IH; auto.
+  - destruct (adopt fd o' (i_led s)) as [L x]. destruct x as [from|]; apply IH; cbn; auto.
+    intros n o [[H | H] | [H | H]]; try discriminate; eauto.
+  - apply IH; auto.
+  - apply IH; auto.
+  - apply IH; auto.
+  - apply IH; cbn; auto. intros n o [[H | H] | [H | H]]; try discriminate; eauto.
+  - destruct (user_close sel (i_led s)) as [L ev] eqn:E. apply IH; cbn; auto.
+    intros n o H.
+    assert (H' : (In (EClose n o) ev \/ In (EKeep n o) ev) \/ (In (EClose n o) (i_tr s) \/ In (EKeep n o) (i_tr s))).
+    { destruct H as [H | H]; apply in_app_or in H; destruct H as [H | H]; auto;
+        apply in_rev in H; auto. }
+    destruct H' as [H' | H']; [| eauto]. destruct (user_close_events _ _ _ _ _ _ E H').
+  - apply IH; auto.
+Qed.
+
+Lemma own_is_lib a : is_lib a = true -> forall o, own_is a o = true -> is_lib o = true.
+Proof. intros H o Ho. apply own_is_true in Ho. subst; auto. Qed.
+Lemma is_queued_lib h : forall o, is_queued h o = true -> is_lib o = true.
+Proof. destruct o; cbn; auto; discriminate. Qed.
+Lemma is_temp_lib : forall o, is_temp o = true -> is_lib o = true.
+Proof. destruct o; cbn; auto; discriminate. Qed.
+
+Ltac walkcl :=
+  repeat first
+    [ progress cbn -[own_is is_queued is_temp move shift_queue hok is_open add_handle set_hst all_closed Nat.mul is_lib]
+    | progress unfold init_fail_tail, spawn_error_temps
+    | apply own_is_lib; reflexivity
+    | apply is_queued_lib
+    | apply is_temp_lib
+    | match goal with
+      | |- _ /\ _ => split
+      | |- True => exact I
+      | |- forall o, is_lib o = true -> is_lib o = true => auto
+      | |- forall _, _ => intro
+      | |- closes_lib (if ?b then _ else _) => destruct b
+      | |- closes_lib ((if ?b then _ else _) _) => destruct b
+      | |- closes_lib (match ?x with _ => _ end) => destruct x
+      end ].
+
+Lemma cl_accept_shed m l h : forall fuel, closes_lib (accept_shed fuel l h m).
+Proof. induction fuel; walkcl; auto. Qed.
+Lemma cl_recvfds m h : forall n, closes_lib (op_recvfds m h n).
+Proof. induction n; walkcl; auto. Qed.
+Lemma cl_spawn_unwind m : forall done c, closes_lib c -> closes_lib (spawn_unwind m done c).
+Proof. induction done as [|sh r IH]; intros c Hc; walkcl; auto. apply IH. destruct x; cbn; auto. Qed.
+Lemma cl_spawn_open m rc : forall sd i done, closes_lib (spawn_open m i sd done rc).
+Proof.
+  induction sd as [|x r IH]; intros i done; [exact I|].
+  destruct x; walkcl; auto; apply cl_spawn_unwind; walkcl.
+Qed.
+Lemma cl_spawn_pairs : forall sd i k, (forall b, closes_lib (k b)) -> closes_lib (spawn_pairs i sd k).
+Proof. induction sd as [|x r IH]; intros i k Hk; [apply Hk|]. destruct x; walkcl; auto. Qed.
+
+Theorem op_closes_lib m o : closes_lib (op_prog m o).
+Proof.
+  unfold op_prog. destruct (m_abort m); [exact I|].
+  destruct o; try (unfold op_loop_init, op_loop_close, op_iou_lazy, op_hinit, op_ensure, op_pipe_bind, op_open,
+    op_accept, op_close, op_run, op_fsevent_start, op_give1, op_give2, op_user_close, op_user_close_fd,
+    op_user_add, op_slurp; walkcl; fail).
+  - unfold op_srvio. walkcl. apply cl_accept_shed.
+  - destruct (hok m h HAcc); [apply cl_recvfds | exact I].
+  - unfold op_spawn. walkcl. apply cl_spawn_pairs. intros b. walkcl; apply cl_spawn_open.
+Qed.
+
+Theorem never_close_foreign fixed fds ops orc :
+  trace_closes_lib (i_tr (snd (run fixed fds ops orc))).
+Proof.
+  unfold run.
+  assert (H0 : trace_closes_lib (i_tr (snd (minit fixed, mkI (user_ledger fds) orc [])))).
+  { intros fd o [[] | []]. }
+  revert H0. generalize (minit fixed, mkI (user_ledger fds) orc []).
+  induction ops as [|o r IH]; intros st H0; cbn; auto.
+  apply IH. unfold step.
+  pose proof (closes_lib_sound (op_prog (fst st) o) (snd st) (op_closes_lib _ _) H0) as H1.
+  destruct (run_prog (op_prog (fst st) o) (snd st)) as [r0 s0]. cbn in *.
+  intros fd ow [[H | H] | [H | H]]; try discriminate; eauto.
+Qed.
+
+(* uv_close of a stream handle wrapping descriptor 0, 1 or 2 leaves the descriptor open and
+   hands it back to the caller *)
+Lemma close_if_keeps : forall p L fd e,
+  In (fd, e) L -> p (e_owner e) = true -> fd <= 2 ->
+  In (fd, set_owner OUser e) (fst (close_if p true L)).
+Proof.
+  induction L as [|[n e1] r IH]; intros fd e Hin Hp Hfd; [destruct Hin|].
+  cbn. destruct (close_if p true r) as [r' ev'] eqn:E. destruct Hin as [Hin | Hin].
+  - inversion Hin; subst. rewrite Hp. cbn [andb].
+    assert (Hl : Nat.leb fd 2 = true) by (apply Nat.leb_le; auto). rewrite Hl. left; reflexivity.
+  - specialize (IH _ _ Hin Hp Hfd). cbn in IH.
+    destruct (p (e_owner e1)); cbn; [destruct (Nat.leb n 2)|]; cbn; auto.
+Qed.
+
+Lemma close_if_other : forall p g L x,
+  In x L -> p (e_owner (snd x)) = false -> In x (fst (close_if p g L)).
+Proof.
+  induction L as [|[n e1] r IH]; intros x Hin Hp; [destruct Hin|].
+  cbn. destruct (close_if p g r) as [r' ev'] eqn:E. destruct Hin as [Hin | Hin].
+  - subst x. cbn in Hp. rewrite Hp. left; reflexivity.
+  - specialize (IH _ Hin Hp). cbn in IH.
+    destruct (p (e_owner e1)); cbn; [destruct (g && Nat.leb n 2)|]; cbn; auto.
+Qed.
+
+Theorem stdio_survives_uv_close m s h fd e :
+  m_abort m = false -> is_open m h = true -> is_stream (ty_of m h) = true ->
+  In (fd, e) (i_led s) -> e_owner e = OHandle h HIo -> fd <= 2 ->
+  In (fd, set_owner OUser e) (i_led (snd (step (m, s) (OClose h)))).
+Proof.
+  intros Ha Ho Ht Hin Hown Hfd.
+  unfold step, op_prog. cbn [fst snd]. rewrite Ha. unfold op_close. rewrite Ho. cbn [negb].
+  assert (Hty : ty_of m h = TTcp \/ ty_of m h = TPipe) by (destruct (ty_of m h); auto; discriminate).
+  assert (Hstep : forall t, t = TTcp \/ t = TPipe ->
+    match t with
+    | TTcp | TPipe => CloseIf (own_is (OHandle h HIo)) true
+        (close_field (OHandle h HAcc) (CloseIf (is_queued h) false (Ret (set_hst m h HClosing, RC_OK))))
+    | TUdp => close_field (OHandle h HIo) (Ret (set_hst m h HClosing, RC_OK))
+    | TOther => Ret (set_hst m h HClosing, RC_OK)
+    end = CloseIf (own_is (OHandle h HIo)) true
+        (close_field (OHandle h HAcc) (CloseIf (is_queued h) false (Ret (set_hst m h HClosing, RC_OK))))).
+  { intros t [-> | ->]; reflexivity. }
+  rewrite (Hstep _ Hty). clear Hstep. unfold close_field. cbn [run_prog].
+  destruct (close_if (own_is (OHandle h HIo)) true (i_led s)) as [L1 ev1] eqn:E1. cbn [i_led i_orc i_tr].
+  destruct (close_if (own_is (OHandle h HAcc)) false L1) as [L2 ev2] eqn:E2. cbn [i_led i_orc i_tr].
+  destruct (close_if (is_queued h) false L2) as [L3 ev3] eqn:E3. cbn [i_led i_orc i_tr fst snd].
+  assert (H1 : In (fd, set_owner OUser e) L1).
+  { pose proof (close_if_keeps (own_is (OHandle h HIo)) (i_led s) fd e Hin) as K.
+    rewrite E1 in K. apply K; auto. rewrite Hown. apply own_is_refl. }
+  assert (H2 : In (fd, set_owner OUser e) L2).
+  { pose proof (close_if_other (own_is (OHandle h HAcc)) false L1 _ H1) as K. rewrite E2 in K. apply K. reflexivity. }
+  assert (H3 : In (fd, set_owner OUser e) L3).
+  { pose proof (close_if_other (is_queued h) false L2 _ H2) as K. rewrite E3 in K. apply K. reflexivity. }
+  exact H3.
+Qed.
+
+(* ------------------------------------------------------------------ *)
+(* witnesses                                                            *)
+(* ------------------------------------------------------------------ *)
+Definition stdio3 : list (nat * bool) := [(0, false); (1, false); (2, false)].
+
+(* cloexec_lock cannot be initialised (or eventfd fails): uv_loop_init returns an error and the
+   epoll descriptor of that instance stays open for the life of the process *)
+Definition leak_prog : list op := [OLoopInit 3 true; OLoopInit 0 true].
+(* second stdio container's pipe handle is already open: uv__stream_open fails *)
+Definition double_close_prog : list op :=
+  [OLoopInit 0 true; OGive2 KPipe2 0 1; OHInit 0 TPipe false; OHInit 1 TPipe false;
+   OOpen 1 (SrcGiven 0) true; OSpawn 2 [SdPipe 0; SdPipe 1; SdInherit] true].
+Definition tcp_prog : list op :=
+  [OLoopInit 0 true; OHInit 0 TTcp true; OEnsure 0 true; OHInit 1 TTcp false; OEnsure 1 true;
+   OSrvIo 0 3; OHInit 2 TTcp false; OAccept 0 2 true; OClose 0; OClose 1; OClose 2; ORun].
+
+Definition only_lock_pipe (st : mstate * ist) : Prop :=
+  forall fd e, In (fd, e) (i_led (snd st)) -> is_lib (e_owner e) = true -> exists w, e_owner e = OProc w.
+
+Lemma leak_witness :
+  let st := run false stdio3 (leak_prog ++ [OLoopClose]) [] in
+  hd (ERet RC_ERR) (i_tr (snd st)) = ERet RC_OK /\
+  In (3, mkE (OLoop 0 SBackend) true true) (i_led (snd st)).
+Proof. vm_compute. split; [reflexivity | auto 10]. Qed.
+
+Lemma leak_witness_fixed :
+  let st := run true stdio3 (leak_prog ++ [OLoopClose]) [] in
+  i_led (snd st) = [(6, mkE (OProc true) true true); (5, mkE (OProc false) true true);
+                    (0, mkE OUser false false); (1, mkE OUser false false); (2, mkE OUser false false)].
+Proof. vm_compute. reflexivity. Qed.
+
+Lemma double_close_witness :
+  In (ERawClose 13 None) (i_tr (snd (run false stdio3 double_close_prog []))).
+Proof. vm_compute. auto 20. Qed.
+
+Lemma tcp_example :
+  let st := run false stdio3 (tcp_prog ++ [OLoopClose]) [] in
+  hd (ERet RC_ERR) (i_tr (snd st)) = ERet RC_OK /\ m_leaked (fst st) = [] /\
+  length (i_led (snd st)) = 5.
+Proof. vm_compute. auto. Qed.
